@@ -311,7 +311,7 @@ func (C06) execute(p *Plan, r *simkit.Run) *simkit.Violation {
 				}
 				b, a := prev.res[i], now.res[i]
 				changed := b.Result != a.Result || (b.Err == "") != (a.Err == "")
-				if changed && strings.HasPrefix(q.Name, "IntentionMatch(src=") && (strings.Contains(e.Desc, "register") || (strings.HasPrefix(e.Desc, "ce.") && !fired(prev.wss[i]))) {
+				if changed && strings.HasPrefix(q.Name, "IntentionMatch(src=") && (flipsDestinationKind(e.Desc) || (strings.HasPrefix(e.Desc, "ce.") && !fired(prev.wss[i]))) {
 					// known finding C06-intention-source-match-unwatched-destination-kind: the source match
 					// filters by whether each destination is a service or a mesh "destination", an input it
 					// neither watches nor indexes; tolerated only for entries that can flip that input
@@ -377,7 +377,7 @@ func (C06) execute(p *Plan, r *simkit.Run) *simkit.Violation {
 						case changed && q.Like == "KVSList(" && a.Empty && strings.Contains(e.Desc, "kv.delete-tree"):
 							r.Hit("known-finding.C06-kv-list-index-after-parent-delete-tree")
 							continue
-						case changed && q.Like == "IntentionMatch(src=" && strings.Contains(e.Desc, "register"):
+						case changed && q.Like == "IntentionMatch(src=" && flipsDestinationKind(e.Desc):
 							r.Hit("known-finding.C06-intention-source-match-unwatched-destination-kind")
 							continue
 						}
@@ -460,7 +460,7 @@ func (C06) execute(p *Plan, r *simkit.Run) *simkit.Violation {
 			default:
 				// still parked: what the endpoint would answer now is what the caller already has
 				cur := t.q.Call(c.Shell, 0)
-				if cur.Err == "" && cur.NoIdx != t.received && t.q.Like == "IntentionMatch(src=" && strings.Contains(what, "register") {
+				if cur.Err == "" && cur.NoIdx != t.received && t.q.Like == "IntentionMatch(src=" && flipsDestinationKind(what) {
 					// known finding C06-intention-source-match-unwatched-destination-kind (see afterCommit)
 					r.Hit("known-finding.C06-intention-source-match-unwatched-destination-kind")
 					t.received = cur.NoIdx
@@ -522,3 +522,15 @@ func (C06) execute(p *Plan, r *simkit.Run) *simkit.Violation {
 
 func first(a, _ string) string  { return a }
 func second(_, b string) string { return b }
+
+// flipsDestinationKind: the entry can change whether a name is a registered catalog service - the unwatched input of
+// known finding C06-intention-source-match-unwatched-destination-kind: a (de)registration, directly or as a
+// transaction verb.
+func flipsDestinationKind(desc string) bool {
+	for _, w := range []string{"register", "service.set", "service.cas", "service.delete", "node.delete"} {
+		if strings.Contains(desc, w) {
+			return true
+		}
+	}
+	return false
+}
